@@ -333,7 +333,7 @@ void vrt_delay_profile(const char *profile)
         while (*p) {
             int id = (int)strtol(p, (char **)&p, 10);
             if (id > 0 && id < 128)
-                g_delay_prob[id] = 26000; /* ~40% */
+                g_delay_prob[id] = 13000; /* ~20% */
             if (*p == ',')
                 p++;
             else
@@ -454,13 +454,27 @@ static void *supervisor(void *arg)
     int same = 0;
     double gap = 1.0 * vrt_san_scale;
     double last_sample = vrt_wall();
+    uint64_t wd_last_progress = 0;
+    double wd_last_change = vrt_wall();
     while (__atomic_load_n(&g_sup_run, __ATOMIC_ACQUIRE)) {
         vrt_sleep_us(100000);
         double now = vrt_wall();
+        {
+            uint64_t pnow = __atomic_load_n(&g_progress, __ATOMIC_RELAXED);
+            if (pnow != wd_last_progress) {
+                wd_last_progress = pnow;
+                wd_last_change = now;
+            }
+        }
         if (now - g_t0 > g_watchdog_s && !__atomic_load_n(&g_finished, __ATOMIC_ACQUIRE)) {
-            /* wall-clock watchdog: inconclusive, never a violation */
+            /* wall-clock watchdog: inconclusive, never a violation.  "slow" =
+             * the workload was still making progress (a sizing problem of the
+             * harness), "stalled" = no actor changed state for a while. */
             char buf[256];
-            snprintf(buf, sizeof(buf), "watchdog %.0fs expired", g_watchdog_s);
+            double idle = now - wd_last_change;
+            snprintf(buf, sizeof(buf), "watchdog %.0fs expired: %s (no progress for %.1fs)",
+                     g_watchdog_s, idle > 10.0 * vrt_san_scale ? "stalled" : "slow",
+                     idle);
             vrt_inconclusive(buf);
             fprintf(stderr, "VRT-WATCHDOG[%s]: ", g_harness);
             vrt_dump_actors(stderr);
